@@ -185,4 +185,7 @@ func TestVerifC14(t *testing.T) {
 		}
 		emit(id, ips, "ok", r, []string{"stream:random"})
 	}
+
+	// ---- Prepare itself: rebinding the address source (implementation-only, real rtnetlink dumps)
+	c14PrepareStream(out)
 }
